@@ -399,8 +399,8 @@ impl StringDecoder for Utf8LengthPrefixedDecoder {
             .take(length as usize)
             // Find the position of the delimiter
             .position(|&b| b == delimiter.as_ref()[0])
-            // If the delimiter is not found, use the whole data slice.
-            .unwrap_or(length as usize);
+            // If the delimiter is not found, use the whole string (or what there is of it).
+            .unwrap_or((length as usize).min(data.len() - 1));
 
         // Convert the data until the found position into a UTF-8 string.
         let result = std::str::from_utf8(
